@@ -74,6 +74,40 @@ def _to_nnx(nn, nnx, bridge, jnp, jax, fails):
       if not _close(dict(upd)[col], after[col]):
         fails.append(dict(inputs=dict(direction='ToNNX', module='Dense+BatchNorm+counter', call=step, collection=col), observed=f'update of mutable collection {col!r} did not reach the wrapper state: {after[col]} vs {dict(upd)[col]}'[:300], violated='tonnx-mutable-propagated'))
         return cases
+  # the same with the stateful layer two levels below the wrapped module
+  class Block(nn.Module):
+    @nn.compact
+    def __call__(self, x, train=True):
+      return nn.BatchNorm(use_running_average=not train, momentum=0.5, name='bn')(nn.Dense(4, name='dense')(x))
+
+  class Deep(nn.Module):
+    @nn.compact
+    def __call__(self, x, train=True):
+      return Block(name='block')(x, train)
+  deep = Deep()
+  dm = bridge.ToNNX(deep, rngs=nnx.Rngs(0))
+  bridge.lazy_init(dm, x)
+
+  def held(mod):
+    from flax.nnx.bridge import variables as bv
+    return nn.meta.unbox({k: v for k, v in bv.nnx_attrs_to_linen_vars({k: v for k, v in vars(mod).items() if k not in ('module', 'rngs', '_object__state')}).items() if k != 'nnx'})
+  for step in range(3):
+    cases += 1
+    inp = dict(direction='ToNNX', module='Dense+BatchNorm two levels below the wrapped module', call=step)
+    try:
+      vs = held(dm)
+      want, upd = deep.apply(vs, x, mutable=['batch_stats'])
+      got = dm(x, mutable=['batch_stats'])
+    except Exception as e:  # noqa
+      fails.append(dict(inputs=inp, observed=f'raised {e!r}'[:300], violated='tonnx-mutable-propagated'))
+      return cases
+    after = held(dm)
+    if not _close(want, got):
+      fails.append(dict(inputs=inp, observed='wrapper output differs from linen apply on the variables it holds', violated='tonnx-output-equal'))
+      return cases
+    if not _close(after.get('batch_stats'), dict(upd)['batch_stats']) or not _close(after.get('params'), vs['params']):
+      fails.append(dict(inputs=inp, observed=f"after the call the wrapper holds params {jax.tree_util.tree_map(np.shape, after.get('params'))} / batch_stats {jax.tree_util.tree_map(np.shape, after.get('batch_stats'))}; expected unchanged params {jax.tree_util.tree_map(np.shape, vs['params'])} and the updated batch_stats"[:400], violated='tonnx-mutable-propagated'))
+      return cases
   # sharding metadata preserved
   cases += 1
   kernel = [v for p, v in flat.items() if p[-1] == 'kernel'][0]
@@ -131,6 +165,45 @@ def _to_linen(nn, nnx, bridge, jnp, jax, fails):
       if int(u['Calls']['calls']) != int(ref_i.calls.value) or int(u['RngCount']['rngs']['noise']['count']) != int(ref_i.rngs.noise.count.value):
         fails.append(dict(inputs=inp, observed=f"state after the call: Calls={int(u['Calls']['calls'])} RngCount={int(u['RngCount']['rngs']['noise']['count'])}; the NNX module holds Calls={int(ref_i.calls.value)} count={int(ref_i.rngs.noise.count.value)}", violated='tolinen-state-roundtrip'))
         return cases
+  # a Variable type together with a subclass of it: each is exposed under the collection named after ITS type
+  cases += 1
+
+  @nnx.register_variable_name('Ema', overwrite=True)
+  class Ema(nnx.BatchStat):
+    pass
+
+  class Tracked(nnx.Module):
+    def __init__(self, *, rngs):
+      self.w = nnx.Param(jnp.ones((3,)))
+      self.lora = nnx.LoRAParam(jnp.full((3,), 0.5))
+      self.mean = nnx.BatchStat(jnp.zeros((3,)))
+      self.ema = Ema(jnp.zeros((3,)))
+
+    def __call__(self, x):
+      self.mean.value = x
+      self.ema.value = 0.9 * self.ema.value + 0.1 * x
+      return x * self.w.value + self.lora.value + self.ema.value
+  tr = bridge.to_linen(Tracked)
+  tv = tr.init(jax.random.key(0), x)
+  layout = {c: sorted(tv[c]) for c in tv if c != 'nnx'}
+  want_layout = {'params': ['w'], 'LoRAParam': ['lora'], 'batch_stats': ['mean'], 'Ema': ['ema']}
+  if layout != want_layout:
+    fails.append(dict(inputs=dict(direction='ToLinen', module='Param + LoRAParam + BatchStat + Ema(BatchStat)', check='collections'),
+                      observed=f'collections {layout}, each Variable belongs under the collection named after its own type: {want_layout}', violated='collection-variable-type'))
+    return cases
+  ref_t = Tracked(rngs=nnx.Rngs(0))
+  vs = tv
+  for step in range(3):
+    cases += 1
+    xi = x * (step + 1)
+    want = ref_t(xi)
+    got, upd = tr.apply(vs, xi, mutable=['Ema', 'batch_stats'])
+    vs = {**vs, **upd}
+    u = nn.meta.unbox(vs)
+    if not _close(want, got) or not _close(u['Ema']['ema'], ref_t.ema.value) or not _close(u['batch_stats']['mean'], ref_t.mean.value):
+      fails.append(dict(inputs=dict(direction='ToLinen', module='Param + LoRAParam + BatchStat + Ema(BatchStat)', call=step),
+                        observed='output / Ema / batch_stats after the call differ from the NNX module called directly', violated='tolinen-state-roundtrip'))
+      return cases
   # stateless module, no mutable: same output every time, equal to the NNX module
   lin = bridge.to_linen(nnx.Linear, 3, 2)
   vs = lin.init(jax.random.key(3), x[None])
@@ -159,7 +232,7 @@ def run(tier, seed):
       import traceback
       return dict(name=NAME, cases=cases, distinct=cases, failures=[], error=f'{part.__name__}: ' + traceback.format_exc()[-1500:])
   return dict(name=NAME, cases=cases, distinct=cases,
-              bound='ToNNX(Dense+BatchNorm+counter): 3 calls; ToLinen(NoisyScale with Param/Calls/RNG stream): 4 calls x mutable {[Calls,RngCount], True}; ToLinen(nnx.Linear): 2 calls; sharding metadata both ways',
+              bound='ToNNX(Dense+BatchNorm+counter): 3 calls; ToNNX(BatchNorm two levels deep): 3 calls; ToLinen(NoisyScale with Param/Calls/RNG stream): 4 calls x mutable {[Calls,RngCount], True}; ToLinen(Param+LoRAParam+BatchStat+Ema subclass): layout + 3 calls; ToLinen(nnx.Linear): 2 calls; sharding metadata both ways',
               failures=fails[:4], error=None)
 
 
